@@ -102,7 +102,7 @@ def load_known():
     return json.load(open(p))
 
 
-def finish(ctx, explanation, level='other'):
+def finish(ctx, explanation, level='other', write=True, quiet=False):
     """print verdict lines, write evidence and reports, return the exit code"""
     pid = ctx.pid
     known = {k['key']: k for k in load_known().get('known', []) if k.get('property') == pid}
@@ -117,6 +117,10 @@ def finish(ctx, explanation, level='other'):
     viol = [r for r in ctx.results if r['verdict'] == 'VIOLATION']
     new = [r for r in viol if r['key'] not in known]
     old = [r for r in viol if r['key'] in known]
+    ctx.new_violations = new
+    ctx.known_reported = old
+    if not write:
+        return 1 if new else (2 if ctx.unrec else 0)
     rep_dir = os.path.join(VERIF, 'reports', pid)
     os.makedirs(rep_dir, exist_ok=True)
     for r in old:
